@@ -213,6 +213,7 @@ def correspondence(ctx):
                    f"model pairs={mpairs} raises={mtrace is None}; real pairs={got_pairs} raised={raised}", case)
         ctx.sample({"variants": case["variants"], "control": case["control"], "all_variants": case["all_variants"],
                     "pairs": got_pairs, "raised": raised}, limit=4)
+    expx.power_correspondence(ctx, "c12p", ctx.n(30, 600))
 
 
 def oracle(ctx, deep=False):
@@ -226,6 +227,14 @@ def oracle(ctx, deep=False):
         for f in fails:
             ctx.violations.append({"what": f.split(":")[0][:80], "detail": f, "input": case})
         if len(ctx.violations) > 30:
+            break
+    for i in range(ctx.n(20, 400)):
+        seed = ctx.rng.randint(0, 10**9)
+        ctx.evaluations += 1
+        ctx.count("oracle:definition-independence")
+        for f in definition_independence(seed):
+            ctx.violations.append({"what": "experiments defined from a shared dict of metrics are not independent", "detail": f,
+                                   "input": {"definition_seed": seed}})
             break
     # Experiment.solve_power versus each metric's own solve_power
     for i in range(ctx.n(15, 300)):
@@ -257,8 +266,52 @@ def oracle(ctx, deep=False):
         ctx.evaluations += 1
 
 
+def definition_independence(seed):
+    """Experiments built from one shared dict of metrics plus keyword metrics: the caller's dict is not modified, each
+    experiment has exactly its own metrics in definition order, and later changes of the dict do not reach them."""
+    import tea_tasting as tt
+    rng = random.Random(seed)
+    names = ["a", "b", "c", "d", "e"]
+    rng.shuffle(names)
+    shared = {n: tt.Mean(n + "_col") for n in names[:rng.randint(1, 3)]}
+    snapshot = dict(shared)
+    fails = []
+    exps = []
+    for k in range(rng.randint(2, 3)):
+        style = rng.choice(["new", "override", "none"])
+        kw = {}
+        if style == "new":
+            kw = {f"k{k}": tt.Mean(f"kw{k}")}
+        elif style == "override":
+            kw = {next(iter(shared)): tt.Mean(f"override{k}")}
+        exp = tt.Experiment(shared, **kw)
+        want = {**snapshot, **kw}
+        exps.append((exp, want, style))
+        if list(shared) != list(snapshot) or any(shared[n] is not snapshot[n] for n in snapshot):
+            fails.append(f"Experiment(metrics, **{list(kw)}) modified the caller's dict: {list(shared)} (was {list(snapshot)})")
+            shared.clear()
+            shared.update(snapshot)
+    shared["late"] = tt.Mean("late_col")          # a later change of the caller's dict
+    for exp, want, style in exps:
+        got = exp.metrics
+        if list(got) != list(want) or any(got[n] is not want[n] for n in want if n in got):
+            fails.append(f"experiment ({style}) has metrics {[(n, m.value) for n, m in got.items()]}, defined with "
+                         f"{[(n, m.value) for n, m in want.items()]}")
+    return fails
+
+
 def replay(ctx, rp):
     case = rp["input"]
+    if "definition_seed" in case:
+        fails = definition_independence(case["definition_seed"])
+        return {"fails": bool(fails), "failures": fails}
+    if case.get("power") and "data_seed" in case:
+        try:
+            objs, observed, plain_calls, keys, fails = expx.run_power(case)
+        except Exception as e:  # noqa: BLE001
+            return {"fails": True, "failures": [f"{type(e).__name__}: {e}"]}
+        return {"fails": bool(fails), "failures": fails, "observed": observed, "entries": keys,
+                "note": "the comparison with the model's trace is part of ./check C12"}
     if "variants" not in case:
         return {"fails": True, "note": "re-run ./check C12"}
     fails, _, _ = check_case(case)
